@@ -914,6 +914,9 @@ pub fn jo_into_token_stream<'a>(jo: JoinOutput<'a>) -> (r: TokenStream)
     s
 }
 
+/// `proc_macro::TokenStream::from(proc_macro2::TokenStream)`
+pub fn pm_token_stream_from(t: TokenStream) -> (r: TokenStream) ensures r@ == t@, { t }
+
 /// the tokens of `::futures`
 pub open spec fn default_futures_path_toks() -> Seq<Tok> {
     Seq::<Tok>::empty().push(Tok::Punct(':')).push(Tok::Punct(':')).push(Tok::Ident("futures"@))
@@ -957,6 +960,15 @@ pub open spec fn gj_ok(jo: JoinOutput, join: JoinInputDefault, config: Config, o
         subst=[{"find": "<T: JoinInput<Chain = ActionExprChain, Handler = Handler>>(\n    join: &T,", "replace": "(\n    join: &JoinInputDefault,",
                 "why": "monomorphised at the only instantiation (join/src/lib.rs::join_impl passes a JoinInputDefault)", "sig": True}] +
               [{"find": "join.%s()" % m, "replace": "ji_%s(join)" % m, "why": "R14: trait method call on T = JoinInputDefault resolved to the body that runs"} for m, _, _ in ACC],
+    )]))
+    # join/src/lib.rs::join_impl - the helper all twelve `#[proc_macro]` entry points call with the parsed input and their
+    # Config literal (R9 table `configs` checks that shape): it hands BOTH on unchanged
+    u.append(fns(F_LIB, [fn("join_impl", "r",
+        requires=["forall|b: int| 0 <= b < join.branches@.len() ==> (#[trigger] join.branches@[b]).members@.len() < usize::MAX",
+                  "forall|b: int| 0 <= b < join.branches@.len() ==> branch_steps_ok((#[trigger] join.branches@[b]).members@)",
+                  "doc_guard(config.is_try, config.is_async, handler_kind(opt_ref(&join.handler)), join.futures_crate_path is Some, join.branches@.len() as int) == 0"],
+        ensures=["exists|jo: JoinOutput| #[trigger] is_expansion_of(jo, r@) && gj_ok(jo, join, config, r@)"],
+        subst=[{"find": "TokenStream::from(", "replace": "pm_token_stream_from(", "why": "proc_macro::TokenStream::from(proc_macro2::TokenStream): the two token-stream types are one type in the token algebra; the conversion keeps the tokens (prelude helper)"}],
     )]))
     return u
 
@@ -1353,7 +1365,7 @@ OBLIGATIONS = {
     "C04": [("step", "JoinOutput::generate_step"), ("step", "lemma_apos_step"), ("step", "lemma_apos_ends"), ("gen", "JoinOutput::generate_step_branch"), ("steps", "JoinOutput::join_steps"), ("steps", "lemma_join_comma"), ("steps", "lemma_count_take_step"), ("gen", "JoinOutput::generate_results_transposer"), ("gen", "JoinOutput::active_step_branch_count"), ("gen", "JoinOutput::extract_results_tuple"), ("gen", "lemma_refs_toks"), ("gen", "lemma_filter_tokenizable"),
             ("gen", "JoinOutput::is_branch_active_in_step"), ("gen", "JoinOutput::generate_indexed_step_results_name"),
             ("gen", "JoinOutput::branch_result_name"), ("gen", "JoinOutput::branch_result_pat")],
-    "C07": [("top", "generate_join"), ("top", "ji_futures_crate_path"), ("gen", "JoinOutput::wrap_into_block"), ("steps", "JoinOutput::generate_thread_builders_and_spawn_joiners"), ("steps", "JoinOutput::generate_step_tail"), ("steps", "lemma_concat_all"), ("entries", "lemma_entry_table"), ("top", "JoinOutput::to_tokens"), ("gen", "JoinOutput::generate_step_branch")],
+    "C07": [("top", "join_impl"), ("top", "generate_join"), ("top", "ji_futures_crate_path"), ("gen", "JoinOutput::wrap_into_block"), ("steps", "JoinOutput::generate_thread_builders_and_spawn_joiners"), ("steps", "JoinOutput::generate_step_tail"), ("steps", "lemma_concat_all"), ("entries", "lemma_entry_table"), ("top", "JoinOutput::to_tokens"), ("gen", "JoinOutput::generate_step_branch")],
     "C13": [("handler", "Handler::try_from"), ("handler", "Handler::peek_handler"), ("handler", "Handler::peek_map_handler"), ("handler", "Handler::peek_then_handler"), ("handler", "Handler::peek_and_then_handler"), ("top", "generate_join"), ("top", "ji_handler"), ("top", "JoinOutput::new"), ("top", "JoinOutput::to_tokens"), ("guards", "Handler::is_map"), ("guards", "Handler::is_then"), ("guards", "Handler::is_and_then"), ("guards", "new_guards"), ("gen", "JoinOutput::generate_handle"), ("gen", "JoinOutput::extract_results_tuple"), ("gen", "JoinOutput::generate_results_transposer")],
     "C09": [("gen", "JoinOutput::expand_process_expr"), ("steps", "JoinOutput::generate_step_tail"), ("top", "JoinOutput::to_tokens"), ("step", "JoinOutput::generate_step"), ("step", "lemma_apos_step"), ("step", "lemma_apos_ends"), ("gen", "JoinOutput::generate_step_branch")],
     # the steps of every kind sit in a plain block of the scope the macro is called in (no closure / thread / box of
@@ -1374,7 +1386,7 @@ OBLIGATIONS = {
             ("gen", "JoinOutput::generate_def_and_step_streams"), ("gen", "JoinOutput::expand_process_expr"),
             ("core", "ProcessExpr::to_tokens")],
     "C14": [("parse", "ParseUntil::scan_step"), ("parse", "parse_until_suffix"), ("det", "lemma_first_match_is_longest"), ("optable", "lemma_operator_tables")],
-    "C16": [("builder", "JoinInputDefault::parse_option_futures_crate_path"), ("builder", "JoinInputDefault::parse_option_custom_joiner"), ("builder", "JoinInputDefault::parse_option_transpose_results"), ("builder", "JoinInputDefault::parse_option_lazy_branches"), ("builder", "JoinInputDefault::parse_branches"), ("top", "generate_join"), ("top", "jo_into_token_stream"), ("top", "ji_futures_crate_path"), ("top", "ji_branches"), ("top", "ji_handler"), ("top", "ji_joiner"), ("top", "ji_transpose_results_option"), ("top", "ji_lazy_branches_option"), ("top", "JoinOutput::new"), ("gen", "JoinOutput::generate_handle"), ("gen", "JoinOutput::generate_step_branch"), ("steps", "JoinOutput::generate_step_tail"), ("guards", "new_init_lazy_branches"), ("guards", "new_init_transpose")],
+    "C16": [("top", "join_impl"), ("builder", "JoinInputDefault::parse_option_futures_crate_path"), ("builder", "JoinInputDefault::parse_option_custom_joiner"), ("builder", "JoinInputDefault::parse_option_transpose_results"), ("builder", "JoinInputDefault::parse_option_lazy_branches"), ("builder", "JoinInputDefault::parse_branches"), ("top", "generate_join"), ("top", "jo_into_token_stream"), ("top", "ji_futures_crate_path"), ("top", "ji_branches"), ("top", "ji_handler"), ("top", "ji_joiner"), ("top", "ji_transpose_results_option"), ("top", "ji_lazy_branches_option"), ("top", "JoinOutput::new"), ("gen", "JoinOutput::generate_handle"), ("gen", "JoinOutput::generate_step_branch"), ("steps", "JoinOutput::generate_step_tail"), ("guards", "new_init_lazy_branches"), ("guards", "new_init_transpose")],
     "C17": [("sep", "is_block_expr"), ("sep", "JoinOutput::separate_block_expr_process"), ("sep", "JoinOutput::separate_block_expr_err"), ("sep", "JoinOutput::separate_block_expr_initial"), ("sep", "lemma_sep_step")] + [("names", "lemma_names_never_clash"), ("names", "lemma_names_table"), ("names", "lemma_name3_injective"), ("names", "lemma_name1_injective"), ("names", "lemma_distinguishable"), ("names", "lemma_names_strlits"), ("gen", "JoinOutput::generate_def_and_step_streams")] + [("core", n) for n in ['construct_var_name', 'construct_step_results_name', 'construct_result_name', 'construct_thread_builder_name', 'construct_inspect_fn_name', 'construct_spawn_tokio_fn_name', 'construct_results_name', 'construct_handler_name', 'construct_internal_value_name', 'construct_thread_builder_fn_name', 'construct_expr_wrapper_name']],
     "C20": [("core", n) for n in ['construct_var_name', 'construct_step_results_name', 'construct_result_name', 'construct_thread_builder_name', 'construct_inspect_fn_name', 'construct_spawn_tokio_fn_name', 'construct_results_name', 'construct_handler_name', 'construct_internal_value_name', 'construct_thread_builder_fn_name', 'construct_expr_wrapper_name']],
     "C10": [("builder", "JoinInputDefault::parse_option_futures_crate_path"), ("builder", "JoinInputDefault::parse_option_custom_joiner"), ("builder", "JoinInputDefault::parse_option_transpose_results"), ("builder", "JoinInputDefault::parse_option_lazy_branches"), ("sep", "JoinOutput::separate_block_expr_process"), ("sep", "JoinOutput::separate_block_expr_err"), ("sep", "JoinOutput::separate_block_expr_initial"), ("sep", "is_block_expr"), ("sep", "err_is_replaceable"), ("sep", "initial_is_replaceable"), ("sep", "lemma_sep_step"), ("sep", "lemma_defs_empty"), ("sep", "lemma_any_block_upto_step")] + [("core", "ProcessExpr::is_replaceable"), ("core", "ProcessExpr::replace_inner_exprs"), ("core", "ErrExpr::replace_inner_exprs"),
